@@ -944,7 +944,7 @@ impl Property for C51 {
         prop_oneof![10 => split_case(tier), 1 => format_case(tier)].boxed()
     }
     fn budget(&self, tier: Tier) -> Budget {
-        Budget::new(tier.pick(550_000, 11_000_000), tier.pick(8, 16)).min_nontrivial(tier.pick(50_000, 1_000_000))
+        Budget::new(tier.pick(220_000, 11_000_000), tier.pick(8, 16)).min_nontrivial(tier.pick(20_000, 1_000_000))
     }
     fn rule(&self) -> String {
         "10:1 mix of split cases (script constructed from statements of words/punctuation/'…' literals/\"…\" quoted identifiers, joined by ';' with whitespace padding and empty statements; \
